@@ -105,6 +105,10 @@ def make_state(lay, start=1.0, pyscalar=True):
         if e is None:
             out.append(float(v) if pyscalar else np.float64(v))
             v += 1
+        elif isinstance(e, (list, tuple)):
+            n = int(np.prod(e))
+            out.append(np.arange(v, v + n, dtype=float).reshape(tuple(e)))
+            v += n
         else:
             out.append(np.arange(v, v + e, dtype=float))
             v += e
@@ -125,11 +129,53 @@ def sig_entry(e):
 
 
 def lay_sig(lay):
-    return ['list'] + [[] if e is None else [e] for e in lay]
+    return ['list'] + [[] if e is None else (list(e) if isinstance(e, (list, tuple)) else [e]) for e in lay]
+
+
+def entry_size(e):
+    return 1 if e is None else (int(np.prod(e)) if isinstance(e, (list, tuple)) else e)
 
 
 def lay_size(lay):
-    return sum(1 if e is None else e for e in lay)
+    return sum(entry_size(e) for e in lay)
+
+
+# ---- sub-models with their own flatten / unflatten instructions ("for more complex nesting, this
+# function should be overloaded"): state = one 2-D array
+#   grid: written like the shipped DiffusionModel - reshape what it is given to the shape of the reference
+#   rows: rows of a fixed width, the number of rows follows from what it is given (reshape(-1, width))
+CODECS = ('default', 'grid', 'rows')
+
+
+def gen_custom_layout(rng):
+    return [[int(rng.integers(1, 4)), int(rng.integers(1, 5))]]
+
+
+def with_codec(base, codec, on_unfl=None):
+    """subclass of `base` (a GenericModel class) with the given instructions; every unflattenX call
+    reports what it was handed to on_unfl(model, X_flat)"""
+    class M(base):
+        def flattenX(self, X):
+            if codec == 'default':
+                return super().flattenX(X)
+            if codec == 'grid':
+                return np.reshape(X[0], (np.prod(np.shape(X[0]))))
+            return np.ravel(X[0])
+
+        def unflattenX(self, X_flat, X_ref):
+            if on_unfl is not None:
+                on_unfl(self, X_flat)
+            if codec == 'default':
+                return super().unflattenX(X_flat, X_ref)
+            if codec == 'grid':
+                return [np.reshape(X_flat, np.shape(X_ref[0]))]
+            return [np.reshape(X_flat, (-1, np.shape(X_ref[0])[1]))]
+    return M
+
+
+def codec_kind(codec, lay):
+    """number understood by Corr.codec_of"""
+    return 0 if codec == 'default' else 1 if codec == 'grid' else 1 + int(lay[0][1])
 
 
 # ------------------------------------------------------------------------------------------
@@ -197,8 +243,10 @@ def run_impl(c):
     it = SolverType.EXPLICITEULER if c['iterator'] == 'Euler' else SolverType.RK4
     ms = []
     for j, m in enumerate(c['models']):
-        ms.append(Scripted(c['t0'], m['layout'], m['props'], c['dflt'], m['stops'],
-                           {int(k): v for k, v in m.get('relayouts', {}).items()}, log, j))
+        cls = with_codec(Scripted, m.get('codec', 'default'),
+                         lambda mdl, xf: log.append(('unfl', mdl.name, mdl.kpost, int(np.size(xf)))))
+        ms.append(cls(c['t0'], m['layout'], m['props'], c['dflt'], m['stops'],
+                      {int(k): v for k, v in m.get('relayouts', {}).items()}, log, j))
     out = {'err': None, 'capped': False}
     clog = []
     if c['coupled']:
@@ -320,10 +368,17 @@ def gen_case(rng, idx):
             stops[-1] = True
             if rng.random() < 0.3:
                 stops.append(True)
-        m = {'layout': gen_layout(rng), 'props': props, 'stops': stops, 'relayouts': {}}
+        m = {'layout': gen_layout(rng), 'props': props, 'stops': stops, 'relayouts': {}, 'codec': 'default'}
         if kind == 'reshape' and j == 0:
             every = int(rng.integers(1, 4))
             m['relayouts'] = {str(k): gen_layout(rng) for k in range(0, 40, every)}
+        elif (c['coupled'] and rng.random() < 0.4) or (kind in ('plain', 'wild') and rng.random() < 0.12):
+            # a model with its own flatten / unflatten instructions, at any position of the coupling
+            m['codec'] = str(rng.choice(['grid', 'rows']))
+            m['layout'] = gen_custom_layout(rng)
+            if m['codec'] == 'rows' and rng.random() < 0.3:
+                w = m['layout'][0][1]
+                m['relayouts'] = {str(k): [[int(rng.integers(1, 4)), w]] for k in range(0, 40, int(rng.integers(1, 4)))}
         models.append(m)
     c['models'] = models
     return c
@@ -347,6 +402,7 @@ def unhexcase(d):
         m['props'] = [unhex(p) if isinstance(p, str) else float(p) for p in m['props']]
         m.setdefault('stops', [])
         m.setdefault('relayouts', {})
+        m.setdefault('codec', 'default')
     c.pop('decimal', None)
     c.setdefault('coupled', len(c['models']) > 1)
     return c
@@ -464,6 +520,8 @@ def oracle_shapes(c, im):
         if kind == 'relayout':
             cur[j] = e[3]
             continue
+        if kind == 'unfl':
+            continue
         sigs = [e[3]] + ([e[4]] if kind == 'correct' else [])
         for s in sigs:
             if s != cur[j]:
@@ -475,6 +533,23 @@ def oracle_shapes(c, im):
 
 def oracle(c, im):
     return oracle_clock(c, im) + oracle_shapes(c, im)
+
+
+def sig_size(sg):
+    return sum(int(np.prod(e)) if e else 1 for e in sg[1:])
+
+
+def handed_disagreements(c, im):
+    """model: every unflattenX of a (sub-)model is handed exactly as many values as its current state
+    flattens to (Model.cunflatten_args / C05_coupler_args_exact; DESolver hands a single model the whole array)"""
+    cur = {j: lay_sig(m['layout']) for j, m in enumerate(c['models'])}
+    for e in im['log']:
+        if e[0] == 'relayout':
+            cur[e[1]] = e[3]
+        elif e[0] == 'unfl' and e[3] != sig_size(cur[e[1]]):
+            return ['unflattenX of model %d (%s instructions) at step %d was handed %d values, its state holds %d' % (
+                e[1], c['models'][e[1]].get('codec', 'default'), e[2], e[3], sig_size(cur[e[1]]))]
+    return []
 
 
 # ------------------------------------------------------------------------------------------
@@ -496,8 +571,9 @@ def zstate_lit(lay, start=0):
             parts.append('Sc %s' % zlit(v))
             v += 1
         else:
-            parts.append('Arr [%s]' % '; '.join(zlit(v + i) for i in range(e)))
-            v += e
+            n = entry_size(e)
+            parts.append('Arr [%s]' % '; '.join(zlit(v + i) for i in range(n)))
+            v += n
     return '[' + '; '.join(parts) + ']'
 
 
@@ -617,14 +693,24 @@ def flat_term(fc):
 
 def gen_coupler_case(rng):
     nm = int(rng.integers(1, 4))
-    lays = [gen_layout(rng) for _ in range(nm)]
-    refs = [list(l) for l in lays] if rng.random() < 0.6 else [gen_layout(rng) for _ in range(nm)]
-    return {'layouts': lays, 'refs': refs}
+    codecs = [str(rng.choice(CODECS, p=[0.55, 0.25, 0.2])) for _ in range(nm)]
+    lays = [gen_layout(rng) if cd == 'default' else gen_custom_layout(rng) for cd in codecs]
+    if rng.random() < 0.6:
+        refs = [list(l) for l in lays]
+    else:
+        # reference of another layout (a 'rows' model keeps its width)
+        refs = [gen_layout(rng) if cd == 'default' else
+                ([[int(rng.integers(1, 4)), l[0][1]]] if cd == 'rows' else gen_custom_layout(rng))
+                for cd, l in zip(codecs, lays)]
+    return {'layouts': lays, 'refs': refs, 'codecs': codecs}
 
 
 def run_coupler_impl(cc):
     from kawin.GenericModel import GenericModel, Coupler
-    ms = [GenericModel() for _ in cc['layouts']]
+    handed = []
+    codecs = cc.get('codecs', ['default'] * len(cc['layouts']))
+    ms = [with_codec(GenericModel, cd, lambda mdl, xf: handed.append([int(round(float(v))) for v in np.ravel(xf)]))()
+          for cd in codecs]
     cp = Coupler(ms)
     X, v = [], 1.0
     for l in cc['layouts']:
@@ -634,17 +720,23 @@ def run_coupler_impl(cc):
     out = {'flat': [int(round(x)) for x in flat], 'sizeRef': [int(s) for s in cp._sizeRef]}
     Xref = [make_state(l, start=1000.0) for l in cc['refs']]
     flat_in = np.arange(500, 500 + len(flat), dtype=float)
+    del handed[:]
     try:
         u = cp.unflattenX(flat_in, Xref)
         out['unflat'] = [state_to_py(x) for x in u]
     except (IndexError, ValueError) as e:
         out['unflat'] = None
+    out['handed'] = [list(h) for h in handed]
+    del handed[:]
     try:
         rt = cp.unflattenX(cp.flattenX(X), X)
         out['roundtrip_ok'] = all(sig(a) == lay_sig(l) and all(np.array_equal(np.asarray(p), np.asarray(q)) for p, q in zip(a, b))
                                   for a, b, l in zip(rt, X, cc['layouts'])) and len(rt) == len(X)
+        # property text: each model gets back the structure and shapes it supplied
+        out['roundtrip_sigs'] = [sig(a) for a in rt]
     except Exception as e:
         out['roundtrip_ok'] = False
+        out['roundtrip_exc'] = type(e).__name__ + ': ' + str(e)[:120]
     return out
 
 
@@ -654,7 +746,9 @@ def coupler_term(cc, im):
         X.append(zstate_lit(l, v))
         v += lay_size(l)
     n = len(im['flat'])
-    return 'check_coupler [%s] [%s] [%s] [%s]' % (
+    codecs = cc.get('codecs', ['default'] * len(cc['layouts']))
+    return 'check_coupler [%s] [%s] [%s] [%s] [%s]' % (
+        '; '.join(natlit(codec_kind(cd, l)) for cd, l in zip(codecs, cc['layouts'])),
         '; '.join(X), '; '.join(natlit(s) for s in im['sizeRef']), '; '.join(zlit(500 + i) for i in range(n)),
         '; '.join(zstate_lit(l, 1000) for l in cc['refs']))
 
@@ -769,6 +863,10 @@ def explore(ctx, cases, label):
                 ctx.hist('proposal', 'nan' if math.isnan(p) else 'inf' if p == INF else '-inf' if p == -INF else 'zero' if p == 0 else 'negative' if p < 0 else 'positive')
         if i not in got:
             dis_all.append((c, 'implementation raised ' + str(im['err']) if im['err'] else 'implementation recorded no dt'))
+        for d in handed_disagreements(c, im):
+            dis_all.append((c, d))
+        for m in c['models']:
+            ctx.hist('instructions', m.get('codec', 'default'))
         for (clause, cls, msg) in oracle(c, im):
             hits.append((c, im, clause, cls, msg))
         if i < 4:
@@ -803,14 +901,21 @@ def explore_layout(ctx, n):
             hits.append((fc, 'shape_preserved', 'reference mutated', 'unflattenX modified its reference state'))
     for cc, ci, r in zip(ccs, cis, res[len(fcs):]):
         ctx.count({'coupler': cc}, len(cc['layouts']) > 1)
-        mflat, msz, munfl = r
+        mflat, msz, margs, munfl = r
+        ctx.hist('coupler_instructions', '+'.join(cc.get('codecs', [])))
         if list(mflat) != ci['flat'] or list(msz) != ci['sizeRef']:
             dis.append((cc, 'Coupler.flattenX: implementation %r %r, model %r %r' % (ci['flat'], ci['sizeRef'], mflat, msz)))
         mu = None if munfl is None else [model_state_to_py(s) for s in munfl[1]]
         if mu != ci['unflat']:
             dis.append((cc, 'Coupler.unflattenX: implementation %r, model %r' % (ci['unflat'], mu)))
+        # what each sub-model's unflattenX was handed (the calls made before a failing one)
+        margs = [list(a) for a in margs]
+        if ci['handed'] != margs[:len(ci['handed'])] or (ci['unflat'] is not None and len(ci['handed']) != len(margs)):
+            dis.append((cc, 'Coupler.unflattenX handed its sub-models %r, model %r' % (ci['handed'], margs)))
         if not ci['roundtrip_ok']:
-            hits.append((cc, 'unflatten_flatten', 'coupler round trip', 'Coupler.unflattenX(flattenX(X), X) differs from X for layouts %r' % (cc['layouts'],)))
+            what = ci.get('roundtrip_exc') or ('shapes %r, supplied %r' % (ci.get('roundtrip_sigs'), [lay_sig(l) for l in cc['layouts']]))
+            hits.append((cc, 'unflatten_flatten', 'coupler round trip',
+                         'Coupler.unflattenX(flattenX(X), X) does not give back X for models %r with layouts %r: %s' % (cc.get('codecs'), cc['layouts'], what)))
     return dis, hits
 
 
@@ -869,11 +974,11 @@ def replay(ctx, obj):
     inp = obj.get('input', obj)
     if 'models' not in inp:
         print('replay: layout case', inp)
-        if 'layouts' in inp:
-            print(run_coupler_impl(inp))
-        else:
-            print(run_flat_impl(inp))
-        return 0
+        r = run_coupler_impl(inp) if 'layouts' in inp else run_flat_impl(inp)
+        print(r)
+        bad = (not r.get('roundtrip_ok', True)) or r.get('ref_mutated', False)
+        print('replay: round trip %s' % ('FAILS on this input' if bad else 'holds on this input'))
+        return 1 if bad else 0
     c = unhexcase(inp)
     im = run_impl(c)
     hits = oracle(c, im)
